@@ -31,9 +31,17 @@ def params(draw, tier):
     p["pose"]["rot_mode"] = "uniform" if p["pose"].get("rot_mode") in ("snap", "snapchord") else p["pose"]["rot_mode"]
     p["pose"].setdefault("angle", 0.0)
     p["n_frames"] = draw(st.integers(2, 6))
-    p["steps"] = [{"kind": draw(st.sampled_from(["random", "affine", "flow"])),
+    p["steps"] = [{"kind": draw(st.sampled_from(["random", "affine", "flow", "dilate", "local"])),
                    "frac": draw(st.floats(0.05, 0.95)), "seed": draw(st.integers(0, 2 ** 32 - 1))}
                   for _ in range(p["n_frames"] - 1)]
+    if draw(st.integers(0, 5)) == 0 and p["kind"] in ("voronoi", "moebius"):
+        # a small tissue that grows for several frames and then drifts by nearly the admissible 8 % of its (larger)
+        # extent: search radii have to follow the current pair
+        p["n_cells"] = min(p["n_cells"], draw(st.integers(4, 9)))
+        p["sub"] = None
+        p["n_frames"] = 5
+        p["steps"] = [{"kind": "dilate", "frac": 0.9, "seed": draw(st.integers(0, 2 ** 32 - 1))} for _ in range(3)] + \
+                     [{"kind": draw(st.sampled_from(["flow", "random"])), "frac": 0.93, "seed": draw(st.integers(0, 2 ** 32 - 1))}]
     p["outside"] = draw(st.sampled_from([False, False, False, True]))
     if p["outside"]:
         for s in p["steps"]:
